@@ -62,7 +62,7 @@ def builtin_corpus():
 
 
 run_impl = L.run_impl
-oracle = L.oracle_c09
+oracle = L.guarded(L.oracle_c09)
 gen_tables = L.gen_tables
 EXHAUSTIVE = {"quick": False, "thorough": False}
 
